@@ -45,6 +45,8 @@ func init() {
 			ruleVarintDelegation(c)
 			ruleVarSize(c)
 			ruleSkipVarint(c)
+			// Skip's WTSlice walk visits exactly count entries, the count taken as unsigned
+			ruleCountLoop(c)
 			ruleTagFormat(c)
 			ruleWireConsts(c)
 		},
@@ -72,6 +74,10 @@ func init() {
 			ruleFullScan(c)
 			ruleLookupStateless(c, []string{"plenccodec.StructCodec.Read", "plenccodec.Descriptor.readAsStruct"})
 			ruleStructUntouched(c)
+			ruleDispatchKnown(c)
+			ruleCountLoop(c)
+			ruleSkipAfterTag(c)
+			ruleReadLookup(c)
 			// nested targets: a non-nil pointer is decoded into, not replaced, so fields absent below it survive
 			rulePointerWrapper(c)
 			ruleMapSlotMerge(c)
